@@ -27,6 +27,26 @@ def prop_sig(cfg, ops, mode):
     return 'c06-%s-property' % mode
 
 
+def single_recipient(rng, cfg, ops):
+    """Keep the stated domain: a callback only on an emit that reaches ONE client.  The generator addresses callback
+    emits to a session id, but a room named like a (future) session id can have been entered by somebody else; the
+    history is run once and the callback is dropped from every emit that was sent to two or more transports."""
+    from drivers import srv
+    try:
+        results, _ = srv.run_history(cfg, ops, 'sync')
+    except Exception:
+        return cfg, ops
+    out, j = [], 0
+    for o in ops:
+        width = {'msg_nested': 2, 'session_nested': 2, 'session_span': 3}.get(o[0], 1)
+        effs = [e for r in results[j:j + width] for e in r[0]]
+        j += width
+        if o[0] == 'emit' and o[7] is not None and len(set(e[1] for e in effs if e[0] == 'Out')) >= 2:
+            o = o[:7] + (None,)
+        out.append(o)
+    return cfg, out
+
+
 def run(chk):
     k = server_hist.Knobs(n_ops=34, refuse=0.05, actions=0.0, nested_ack=0.3)
     k.w.update({'emit_cb': 7, 'ack': 8, 'binary': 1.0, 'connect': 4, 'emit': 0.5, 'enter': 0.3, 'leave': 0.1,
@@ -38,7 +58,7 @@ def run(chk):
                 'histories of emits with callbacks to individual clients on several namespaces interleaved with ACK / '
                 'BINARY_ACK packets from any client with ids 0,1,2,3,5,None (correct, duplicate, never issued, issued to '
                 'another client / namespace), with disconnects and reconnects; non-trivial = at least one callback emit and '
-                'one ACK; distinct by per-operation effect signature', nontrivial, prop_sig)
+                'one ACK; distinct by per-operation effect signature', nontrivial, prop_sig, tweak=single_recipient)
 
 
     if not chk.broken:
